@@ -57,6 +57,12 @@ func shrinkPlan(ck *Check, plan *Plan, prop string, viol *Violation) (*Plan, *Vi
 				i++
 			}
 		}
+		for i := range best.RPCs {
+			i := i
+			if len(best.RPCs[i].LibFaults) > 0 {
+				changed = edit(func(p *Plan) bool { p.RPCs[i].LibFaults = nil; return true }) || changed
+			}
+		}
 		if len(best.LibFaults) > 0 {
 			changed = edit(func(p *Plan) bool { p.LibFaults = nil; return true }) || changed
 		}
